@@ -2,6 +2,7 @@ package rules
 
 import (
 	"fmt"
+	"go/token"
 	"go/types"
 	"sort"
 	"strings"
@@ -143,6 +144,11 @@ func runC02(p *core.Prog, r *core.Report) {
 				if strings.Contains(d, "temp.m") || strings.Contains(d, "fullBytesLen") || strings.HasPrefix(d, "make") {
 					return call.Call.Args[0]
 				}
+				if hc, isC := core.Strip(call.Call.Args[0]).(*ssa.Call); isC {
+					if h := core.Callee(hc); h != nil && h.Blocks != nil && h.Pkg == pkgOf(r3) && !token.IsExported(h.Name()) {
+						return call.Call.Args[0]
+					}
+				}
 			}
 			return nil
 		})
@@ -172,6 +178,17 @@ func isPtrTo32(t types.Type) bool {
 // messageForms: canonical "(condition on fullBytesLen) → encoding" entries of the message bytes
 // selected by pick in fn.
 func messageForms(fn *ssa.Function, pick func(ssa.Instruction) ssa.Value) []string {
+	return messageFormsD(fn, pick, 0)
+}
+
+func pkgOf(fn *ssa.Function) *ssa.Package {
+	for fn.Parent() != nil {
+		fn = fn.Parent()
+	}
+	return fn.Pkg
+}
+
+func messageFormsD(fn *ssa.Function, pick func(ssa.Instruction) ssa.Value, depth int) []string {
 	var out []string
 	for _, b := range fn.Blocks {
 		for _, in := range b.Instrs {
@@ -186,6 +203,24 @@ func messageForms(fn *ssa.Function, pick func(ssa.Instruction) ssa.Value) []stri
 				cond = "fullBytesLen==0"
 			case full&core.EQ == 0:
 				cond = "fullBytesLen!=0"
+			}
+			// the encoding factored into a private helper of the package: its returns, under the call's condition
+			if call, isC := core.Strip(v).(*ssa.Call); isC && depth < 2 {
+				if h := core.Callee(call); h != nil && h.Blocks != nil && h.Pkg == pkgOf(fn) && h.Parent() == nil && !token.IsExported(h.Name()) && strings.HasSuffix(h.Signature.Results().String(), "[]byte)") {
+					sub := messageFormsD(h, func(in ssa.Instruction) ssa.Value {
+						if ret, isR := in.(*ssa.Return); isR && len(ret.Results) == 1 {
+							return ret.Results[0]
+						}
+						return nil
+					}, depth+1)
+					for _, e := range sub {
+						if cond != "?" {
+							e = cond + " ∧ " + e
+						}
+						out = append(out, e)
+					}
+					continue
+				}
 			}
 			enc := descr(v)
 			if mk, ok := core.Strip(v).(*ssa.MakeSlice); ok {
